@@ -93,11 +93,15 @@ pub fn run_prompt(args: Vec<String>) {
                 };
 
                 let ends_in_expr = matches!(program.statements.last(), Some(Statement::Expr(_)));
+                // A line that does not compile must leave no trace: keep the
+                // state as it was before the attempt.
+                let symtab_before = symtab.clone();
+                let constants_before = constants.clone();
                 let mut compiler = Compiler::new_with_state(symtab, constants);
                 if let Err(e) = compiler.compile(program) {
                     eprintln!("{}", e);
-                    symtab = compiler.symtab;
-                    constants = compiler.constants;
+                    symtab = symtab_before;
+                    constants = constants_before;
                     continue;
                 }
                 let bytecode = compiler.bytecode();
